@@ -11,7 +11,7 @@
 (* Output: one ndjson record per item sequence: the write steps once, and the  *)
 (* continuation for every (k, mode).  PART/PARTS split the work over several   *)
 (* TLC processes.                                                              *)
-EXTENDS Stream, StreamUniverse, Json, IOUtils
+EXTENDS StreamScripts, Json, IOUtils
 
 K     == atoi(IOEnv.K)
 PART  == atoi(IOEnv.PART)        \* 1..PARTS
@@ -25,55 +25,6 @@ Pow(b, e) == IF e = 0 THEN 1 ELSE b * Pow(b, e - 1)
 \* the i-th (1-based) sequence of K items
 ItemSeq(i) == [j \in 1..K |-> U[(((i - 1) \div Pow(N, j - 1)) % N) + 1]]
 
-RECURSIVE Writes(_, _, _)
-Writes(st, q, acc) == IF q = <<>> THEN [s |-> st, hs |-> acc]
-                      ELSE LET r == WriteStep(st, Head(q), EncLen(Head(q))) IN Writes(r.s, Tail(q), Append(acc, r.last))
-
-ViaFor(it, mode) == IF it.t \in ArrTags THEN (IF mode = "a" THEN "vec" ELSE "view")
-                    ELSE IF it.t = "raw" THEN (IF mode = "a" THEN "read" ELSE "view")
-                    ELSE "typed"
-
-\* destination policies.  "fresh": every read goes into a newly constructed object.
-\* "reuse": the harness' scratch object of the destination type is reused for every read of
-\* the history; the first read of a type finds it pre-populated with a value longer than
-\* anything in the universe, later reads find what the previous read of that type left
-\* (longer, shorter or equally long, depending on the item sequence).
-\* "short": every read finds its destination pre-populated with one (non-empty) element.
-UsedBefore(st, T, mode) == \E j \in 1..st.idx : DstType(st.items[j], ViaFor(st.items[j], mode)) = T
-DstFor(st, it, mode, pol) ==
-  LET T == DstType(it, ViaFor(it, mode)) IN
-  IF pol = "fresh" \/ T = "none" THEN [dst |-> "fresh", pre |-> 0]
-  ELSE IF T = "pod" THEN [dst |-> "reused", pre |-> 0]
-  ELSE IF pol = "short" THEN [dst |-> "prepop", pre |-> ShortPre(T)]
-  ELSE IF UsedBefore(st, T, mode) THEN [dst |-> "reused", pre |-> 0]
-  ELSE [dst |-> "prepop", pre |-> LongPre(T)]
-
-RECURSIVE Reads(_, _, _, _)
-Reads(st, mode, pol, acc) ==
-  IF st.phase # "reading" \/ st.idx = Len(st.items) THEN [s |-> st, hs |-> acc]
-  ELSE LET it == st.items[st.idx + 1]
-           d  == DstFor(st, it, mode, pol)
-           r  == ReadStep(st, ViaFor(it, mode), d.dst, d.pre) IN
-       IF r.last.ok THEN Reads(r.s, mode, pol, Append(acc, r.last))
-       ELSE [s |-> r.s, hs |-> Append(acc, r.last)]
-
-\* boundary probes from a reader that is not broken
-Probes(st) ==
-  IF st.phase # "reading" THEN <<>>
-  ELSE LET p1 == ViewStep(st, Rem(st) + 1)                  \* one byte over: throws
-           p2 == ViewStep(p1.s, -1)                          \* size_t(-1): throws
-           p3 == IF Rem(st) < 4 THEN <<ProbeStep(p2.s, "i32").last>> ELSE <<>>   \* typed read over a partial rest
-           p4 == ViewStep(p2.s, Rem(st))                     \* exactly the rest: fits
-           p5 == ProbeStep(p4.s, "u8")                       \* at the end: throws
-           p6 == ViewStep(p4.s, 0)                           \* empty view at the end: fits
-       IN <<p1.last, p2.last>> \o p3 \o <<p4.last, p5.last, p6.last>>
-
-Cont(st, k, mode, pol) ==
-  LET o == OpenStep(st, k)
-      r == Reads(o.s, mode, pol, <<o.last>>)
-  IN r.hs \o Probes(r.s)
-
-HasAlt(q) == \E j \in DOMAIN q : q[j].t \in ArrTags \cup {"raw"}
 
 Case(i) ==
   LET q == ItemSeq(i)
